@@ -723,12 +723,92 @@ func checkC11(c *Ctx, r *Report) {
 	if ic := c.Fn(pkgDomain, "(*RequestProfile).IsCompatibleWith"); ic == nil {
 		r.Unresolved("C11-R3", "(*RequestProfile).IsCompatibleWith")
 	} else {
-		whyOf := func(facts []condFact) string {
+		var whyOf func(facts []condFact) string
+		whyOf = func(facts []condFact) string {
 			why := ""
 			typeEqConst, entryEqConst := false, false
 			for _, cf := range facts {
 				if !cf.True {
 					continue
+				}
+				// a disjunction kept in a variable (`unconstrained := type == auto || len(spec) == 0` … `if unconstrained`):
+				// true through any of its operands, so each of them has to be a reason
+				if ph, isPhi := cf.Cond.(*ssa.Phi); isPhi && len(ph.Edges) == len(ph.Block().Preds) {
+					all, parts := true, ""
+					for i, e := range ph.Edges {
+						pred := ph.Block().Preds[i]
+						var fs []condFact
+						if k, isK := e.(*ssa.Const); isK && k.Value != nil {
+							if k.Value.String() != "true" {
+								continue
+							}
+							fs = append(append(fs, condFacts(pred)...), edgeFacts(pred, ph.Block())...)
+						} else {
+							fs = append(append(fs, condFacts(pred)...), condFact{e, true, cf.If})
+						}
+						// only what was learnt inside the disjunction counts (facts that already held before it do not)
+						var own []condFact
+						for _, f := range fs {
+							dup := false
+							for _, g := range facts {
+								if g.Cond == f.Cond && g.True == f.True {
+									dup = true
+								}
+							}
+							if !dup {
+								own = append(own, f)
+							}
+						}
+						w := whyOf(own)
+						if w == "" {
+							all = false
+							break
+						}
+						if parts == "" {
+							parts = w
+						} else if parts != w {
+							parts += " / " + w
+						}
+					}
+					if all && parts != "" {
+						why = parts
+					}
+					// `servesClass := type == "a" || type == "b"`: the type is one of several constants — half of the
+					// "entry names a class and the type is a member of it" reason, like a single `type == K`
+					if !all {
+						members := 0
+						onlyTypeConsts := true
+						for i, e := range ph.Edges {
+							pred := ph.Block().Preds[i]
+							var tests []condFact
+							if k, isK := e.(*ssa.Const); isK && k.Value != nil {
+								if k.Value.String() != "true" {
+									continue
+								}
+								tests = edgeFacts(pred, ph.Block())
+							} else {
+								tests = []condFact{{e, true, cf.If}}
+							}
+							okEdge := false
+							for _, t := range tests {
+								if bo, isB := t.Cond.(*ssa.BinOp); isB && assertsEq(bo, t.True) {
+									if _, isP := bo.X.(*ssa.Parameter); isP {
+										if _, isK := constString(bo.Y); isK {
+											okEdge = true
+										}
+									}
+								}
+							}
+							if okEdge {
+								members++
+							} else {
+								onlyTypeConsts = false
+							}
+						}
+						if onlyTypeConsts && members > 0 {
+							typeEqConst = true
+						}
+					}
 				}
 				if x := lenEqZeroOperand(cf.Cond); x != nil {
 					why = "empty SupportedBy"
